@@ -21,6 +21,7 @@ refused.  Fail closed: a refused item is emitted as a comment (ABSENT), so every
 Coq file using it stops compiling, and a TRANSLATOR-PROBLEM line is printed.
 """
 import ast
+import copy
 import os
 import sys
 
@@ -291,11 +292,36 @@ def strip_doc(body):
     return body
 
 
+class _Subst(ast.NodeTransformer):
+    def __init__(self, env):
+        self.env = env
+
+    def visit_Name(self, node):
+        if isinstance(node.ctx, ast.Load) and node.id in self.env:
+            return copy.deepcopy(self.env[node.id])
+        return node
+
+
 def single_return_expr(fn):
+    """The expression a predicate method returns.  Accepted: `return e`, possibly preceded by
+    assignments of pure expressions to function-local names, each assigned once (`x = e1; return not x`):
+    the locals are substituted into the returned expression (the predicates read attributes only, the
+    value of the method is the value of the inlined expression).  Anything else is refused."""
     body = strip_doc(fn.body)
-    if len(body) != 1 or not isinstance(body[0], ast.Return) or body[0].value is None:
-        raise Unsupported("%s is not a single return statement" % fn.name)
-    return body[0].value
+    env = {}
+    for st in body[:-1]:
+        if isinstance(st, ast.Assign) and len(st.targets) == 1 and isinstance(st.targets[0], ast.Name):
+            name, value = st.targets[0].id, st.value
+        elif isinstance(st, ast.AnnAssign) and isinstance(st.target, ast.Name) and st.value is not None:
+            name, value = st.target.id, st.value
+        else:
+            raise Unsupported("%s is not a sequence of local assignments followed by one return" % fn.name)
+        if name in env or name == "self":
+            raise Unsupported("%s assigns the local %s twice" % (fn.name, name))
+        env[name] = _Subst(env).visit(copy.deepcopy(value))
+    if not body or not isinstance(body[-1], ast.Return) or body[-1].value is None:
+        raise Unsupported("%s does not end in a return statement" % fn.name)
+    return _Subst(env).visit(copy.deepcopy(body[-1].value))
 
 
 def sig_text(sig):
